@@ -151,3 +151,24 @@ func TestContinueWhopperLocation(t *testing.T) {
 	tt.Equal(t, 2, len(loc.Hierarchy()))
 	tt.Equal(t, loc, loc.Eval(nil, 0))
 }
+
+func TestDefmethodLateOtherPackage(t *testing.T) {
+	undefFlavors("latebase", "lateuser")
+	defer undefFlavors("latebase", "lateuser")
+	scope := slip.NewScope()
+	// A daemon defined after the inheriting flavor exists must reach the
+	// inheriting flavor even when the defmethod is evaluated in a package
+	// that does not see that flavor.
+	result := slip.ReadString(`
+(defflavor latebase ((trail nil)) () :gettable-instance-variables)
+(defflavor lateuser () (latebase))
+(defmethod (lateuser :poke) () 'poked)
+(defpackage :late-other-package (:use :cl :flavors :clos :generic))
+(in-package :late-other-package)
+(defmethod (cl-user:latebase :before :poke) () (setq trail 'base-before))
+(in-package :cl-user)
+(let ((inst (make-instance 'lateuser)))
+  (list (send inst :poke) (send inst :trail)))
+`, scope).Eval(scope, nil)
+	tt.Equal(t, "(poked base-before)", slip.ObjectString(result))
+}
